@@ -307,6 +307,11 @@ class Gen:
         if c == 4:
             return self.node("throw", v="boom")
         if c == 5:
+            if self.features.get("ext2") and r.random() < 0.6:
+                # the target is not a variable but the name of a function (the program's own, a prelude function,
+                # a built-in): "not currently bound", like any other unbound target
+                names = sorted(self.fun_sigs) + ["println", "max", "string_repr", "tr" if self.has_tracer else "range"]
+                return self.node(r.choice(["set", "set", "upd"]), n=r.choice(names), e=self.int_expr(scope, 2), op="+")
             return self.node("set", n=self.fresh("unbound"), e=self.int_expr(scope, 2))
         if c == 6 and self.fun_sigs:
             f = r.choice(sorted(self.fun_sigs))
@@ -315,12 +320,7 @@ class Gen:
         if c == 7:
             return self.node("if", c=self.int_expr(scope, 2), t=[self.node("print", v="t")], f=[], inline=False, **{"else": False})
         if c == 9 and self.features.get("ext2"):
-            k = r.randint(0, 5)
-            if k == 5:
-                # an assignment whose target is not a variable but the name of a function (the program's own,
-                # a prelude function, a built-in): "not currently bound", like any other unbound target
-                names = sorted(self.fun_sigs) + ["println", "max", "string_repr", "tr" if self.has_tracer else "range"]
-                return self.node("set", n=r.choice(names), e=self.int_expr(scope, 2))
+            k = r.randint(0, 4)
             if k == 0 and self.meth_sigs:
                 m = r.choice(sorted(self.meth_sigs))
                 tt, pt, _ = self.meth_sigs[m]
